@@ -1139,3 +1139,149 @@ V("C02", "rejected_update_flushes_in_batch", "fire", "R02.u", (Z, """        try
             self_._BATCH_WATCH = BATCH_WATCH
             try:
                 if rejected or not BATCH_WATCH:"""))
+
+# ======================================================================= round-c rules
+V("C01", "bytes_regex_skipped_for_empty", "fire", "R01.j", (P, """    def _validate_regex(self, val, regex):
+        if (val is None and self.allow_None):
+            return
+        if regex is not None and re.match(regex, val) is None:
+            raise ValueError(
+                f"{_validate_error_prefix(self)} value {val!r} "
+                f"does not match regex {regex!r}.\"""", """    def _validate_regex(self, val, regex):
+        if (not val and self.allow_None):
+            return
+        if regex is not None and re.match(regex, val) is None:
+            raise ValueError(
+                f"{_validate_error_prefix(self)} value {val!r} "
+                f"does not match regex {regex!r}.\""""))
+V("C01", "benign_string_regex_split_tests", "benign", None, (Z, """        if (val is None and self.allow_None):
+            return
+        if regex is not None and re.match(regex, val) is None:
+            raise ValueError(
+                f'{_validate_error_prefix(self)} value {val!r} does not '""", """        if val is None and self.allow_None:
+            return
+        if regex is None:
+            return
+        if re.match(regex, val) is None:
+            raise ValueError(
+                f'{_validate_error_prefix(self)} value {val!r} does not '"""))
+V("C02", "resolve_ref_marks_private_state_before_validation", "fire", "R02.a", (Z, """        ref = value
+        try:
+            value = resolve_value(value, recursive=pobj.nested_refs)
+        except Skip:
+            value = Undefined
+        if is_async:""", """        ref = value
+        if self_.self is not None:
+            self_.self._param__private.explicit_no_refs.append(pobj.name)
+        try:
+            value = resolve_value(value, recursive=pobj.nested_refs)
+        except Skip:
+            value = Undefined
+        if is_async:"""))
+V("C03", "queue_dedup_by_equality", "fire", "R03.f", (Z, "            if not any(watcher is w for w in self_._state_watchers):", "            if not any(watcher == w for w in self_._state_watchers):"))
+V("C03", "benign_compare_mapping_all_form", "benign", None, (Z, """        for k in obj1:
+            if k in obj2:
+                if not cls.is_equal(obj1[k], obj2[k]):
+                    return False
+            else:
+                return False
+        return True""", """        return all(k in obj2 and cls.is_equal(obj1[k], obj2[k]) for k in obj1)"""))
+V("C09", "benign_compare_mapping_all_form", "benign", None, (Z, """        for k in obj1:
+            if k in obj2:
+                if not cls.is_equal(obj1[k], obj2[k]):
+                    return False
+            else:
+                return False
+        return True""", """        return all(k in obj2 and cls.is_equal(obj1[k], obj2[k]) for k in obj1)"""))
+V("C09", "compare_iterator_ignores_length", "fire", "R09.g", (Z, """    def compare_iterator(cls, obj1, obj2):
+        if type(obj1) is not type(obj2) or len(obj1) != len(obj2):
+            return False""", """    def compare_iterator(cls, obj1, obj2):
+        if type(obj1) is not type(obj2):
+            return False"""))
+V("C03", "compare_iterator_ignores_length", "fire", "R03.c", (Z, """    def compare_iterator(cls, obj1, obj2):
+        if type(obj1) is not type(obj2) or len(obj1) != len(obj2):
+            return False""", """    def compare_iterator(cls, obj1, obj2):
+        if type(obj1) is not type(obj2):
+            return False"""))
+V("C04", "flush_refilters_changes_only_watchers", "fire", "R04.h", (Z, """                          for name in watcher.parameter_names
+                          if (name, watcher.what) in event_dict]
+                with _batch_call_watchers(self_.self_or_cls, enable=watcher.queued, run=False):""", """                          for name in watcher.parameter_names
+                          if (name, watcher.what) in event_dict]
+                if watcher.onlychanged and not self_._TRIGGER:
+                    events = [e for e in events if self_._changed(e)] or events
+                with _batch_call_watchers(self_.self_or_cls, enable=watcher.queued, run=False):"""))
+V("C05", "flush_requeues_on_failure", "fire", "R05.h", (Z, """                with _batch_call_watchers(self_.self_or_cls, enable=watcher.queued, run=False):
+                    self_._execute_watcher(watcher, events)
+    # Please update""", """                try:
+                    with _batch_call_watchers(self_.self_or_cls, enable=watcher.queued, run=False):
+                        self_._execute_watcher(watcher, events)
+                except Exception:
+                    self_._state_watchers = [w for w in watchers if w is not watcher] + self_._state_watchers
+                    raise
+    # Please update"""))
+V("C05", "discard_events_restores_queues_on_normal_exit_only", "fire", "R05.i", (Z, """    try:
+        yield
+    finally:
+        parameterized.param._BATCH_WATCH = batch_watch
+        parameterized.param._state_watchers = watchers
+        parameterized.param._events = events
+""", """    try:
+        yield
+        parameterized.param._state_watchers = watchers
+        parameterized.param._events = events
+    finally:
+        parameterized.param._BATCH_WATCH = batch_watch
+"""))
+V("C05", "benign_syncing_except_and_fallthrough", "benign", None, (Z, """    try:
+        yield
+    finally:
+        parameterized._param__private.syncing = old
+""", """    try:
+        yield
+    except BaseException:
+        parameterized._param__private.syncing = old
+        raise
+    parameterized._param__private.syncing = old
+"""))
+V("C08", "ctor_skips_refs_without_value", "fire", "R08.d", (Z, """            if ref is not None:
+                refs[name] = ref
+                deps[name] = ref_deps
+            if not is_async and not (resolved is Undefined or resolved is Skip):""", """            if ref is not None and resolved is not Undefined:
+                refs[name] = ref
+                deps[name] = ref_deps
+            if not is_async and not (resolved is Undefined or resolved is Skip):"""))
+V("C08", "update_context_scans_keywords_only", "fire", "R08.f", (Z, "            params = list(kwargs if arg is Undefined else dict(arg, **kwargs))", "            params = list(kwargs)"))
+V("C08", "benign_update_context_scan_two_lists", "benign", None, (Z, "            params = list(kwargs if arg is Undefined else dict(arg, **kwargs))", "            params = list(kwargs) if arg is Undefined else list(dict(arg)) + list(kwargs)"))
+V("C08", "syncing_set_updated_in_place", "fire", "R08.c", (Z, "    parameterized._param__private.syncing = set(old) | set(parameters)", "    parameterized._param__private.syncing.update(parameters)"))
+V("C10", "syncing_set_updated_in_place", "fire", "R10.j", (Z, "    parameterized._param__private.syncing = set(old) | set(parameters)", "    parameterized._param__private.syncing.update(parameters)"))
+V("C10", "benign_syncing_fresh_set_built_in_steps", "benign", None, (Z, "    parameterized._param__private.syncing = set(old) | set(parameters)", "    fresh = set(old)\n    fresh |= set(parameters)\n    parameterized._param__private.syncing = fresh"))
+V("C10", "no_unlink_when_value_identical", "fire", "R10.m", (Z, """        if relink:
+            self._relink(obj, name, ref)""", """        if relink and not (ref is None and val is _old):
+            self._relink(obj, name, ref)"""))
+V("C09", "watch_callback_ignored_when_queued", "fire", "R09.h", (R, """            elif fn is not None:
+                fn(value)
+        bind(cb, self._reactive, watch=True)""", """            elif fn is not None and not queued:
+                fn(value)
+        bind(cb, self._reactive, watch=True)"""))
+V("C09", "benign_watch_callback_early_return_without_fn", "benign", None, (R, """            from .parameterized import async_executor
+            if iscoroutinefunction(fn):
+                async_executor(partial(fn, value))
+            elif fn is not None:
+                fn(value)
+        bind(cb, self._reactive, watch=True)""", """            from .parameterized import async_executor
+            if fn is None:
+                return
+            if iscoroutinefunction(fn):
+                async_executor(partial(fn, value))
+            else:
+                fn(value)
+        bind(cb, self._reactive, watch=True)"""))
+V("C03", "update_flushes_before_lowering_flag", "fire", "R03.u", (Z, """            self_._BATCH_WATCH = BATCH_WATCH
+            try:
+                if not BATCH_WATCH:
+                    self_._batch_call_watchers()
+            finally:""", """            try:
+                if not BATCH_WATCH:
+                    self_._batch_call_watchers()
+            finally:
+                self_._BATCH_WATCH = BATCH_WATCH"""))
